@@ -81,8 +81,14 @@ def run(F, tier, res):
             ok += 1
     # reverse iteration
     n += 1
-    revs = [(i, c) for i, c in F.calls(gov[0]) if callee_of(c).endswith('Iterator>::next') and 'Rev<' in callee_full(c) and 'SplitWhitespace' in callee_full(c)]
-    fwd = [(i, c) for i, c in F.calls(gov[0]) if callee_of(c).endswith('Iterator>::next') and 'SplitWhitespace' in callee_full(c) and 'Rev<' not in callee_full(c)]
+    # the consumer of the feature-name iterator (a `for` loop's next(), or an adapter chain ending in find_map / find / try_fold / ...)
+    CONSUME = ('::next', '::find_map', '::find', '::try_fold', '::fold', '::for_each', '::any', '::all', '::position', '::filter_map', '::map', '::collect', '::last', '::nth')
+
+    def self_ty(c):
+        full = callee_full(c)
+        return full.split(' as ')[0] if full.startswith('<') else full
+    revs = [(i, c) for i, c in F.calls(gov[0]) if callee_of(c).endswith(CONSUME) and 'Rev<' in self_ty(c) and 'SplitWhitespace' in self_ty(c)]
+    fwd = [(i, c) for i, c in F.calls(gov[0]) if callee_of(c).endswith(CONSUME) and 'SplitWhitespace' in self_ty(c) and 'Rev<' not in self_ty(c)]
     if revs and not fwd:
         ok += 1
     else:
@@ -154,7 +160,15 @@ def run(F, tier, res):
         S = F.cfg(p)
         C = _bb_of_calls(F, p, lambda r, c: r.endswith('GitConfig::get') and 'delta.features' in Ru.str_lits(F, p, c['args'][1]) if len(c['args']) > 1 else False)
         D = _bb_of_calls(F, p, lambda r, c: r.endswith('gather_builtin_features_from_flags_in_gitconfig'))
-        B = _bb_of_calls(F, p, lambda r, c: r.endswith('gather_builtin_features_recursively') and bool(Ru.str_lits(F, p, c['args'][0])))
+        # command-line feature flags: the builtin gatherer called with a feature name that is a literal, directly or through a
+        # constant table iterated in place (not a name read from the git config)
+        def _flag_name(c):
+            if Ru.str_lits(F, p, c['args'][0]):
+                return True
+            roots = F.trace(p, c['args'][0], deep=True)
+            from_config = any(r[0] == 'call' and ('GitConfig' in r[1] or r[1].endswith('::split_whitespace')) for r in roots)
+            return not from_config and any(r[0] in ('agg', 'const') for r in roots)
+        B = _bb_of_calls(F, p, lambda r, c: r.endswith('gather_builtin_features_recursively') and _flag_name(c))
         after_c = set()
         for (cb, _) in C:
             after_c |= reach(S, S.get(cb, []))
